@@ -283,6 +283,60 @@ def _expand(idx: PyIndex, fi: FuncInfo, call: ast.Call, h: FuncInfo, at: ast.AST
     return out, ret
 
 
+class _Fold(ast.NodeTransformer):
+    """After substituting constant arguments/defaults: tests between constants are decided and the dead arm is dropped."""
+    @staticmethod
+    def _const(e):
+        if isinstance(e, ast.Constant):
+            return True, e.value
+        if isinstance(e, ast.Tuple) and all(isinstance(x, ast.Constant) for x in e.elts):
+            return True, tuple(x.value for x in e.elts)
+        return False, None
+
+    def _truth(self, t):
+        if isinstance(t, ast.Constant):
+            return bool(t.value)
+        if isinstance(t, ast.UnaryOp) and isinstance(t.op, ast.Not):
+            v = self._truth(t.operand)
+            return None if v is None else (not v)
+        if isinstance(t, ast.Compare) and len(t.ops) == 1:
+            ok1, a = self._const(t.left)
+            ok2, b = self._const(t.comparators[0])
+            if ok1 and ok2:
+                op = t.ops[0]
+                try:
+                    if isinstance(op, ast.Eq):
+                        return a == b
+                    if isinstance(op, ast.NotEq):
+                        return a != b
+                    if isinstance(op, ast.In):
+                        return a in b
+                    if isinstance(op, ast.NotIn):
+                        return a not in b
+                    if isinstance(op, ast.Is):
+                        return a is b if (a is None or b is None or isinstance(a, bool)) else None
+                    if isinstance(op, ast.IsNot):
+                        return a is not b if (a is None or b is None or isinstance(a, bool)) else None
+                except TypeError:
+                    return None
+        return None
+
+    def visit_IfExp(self, node):
+        self.generic_visit(node)
+        v = self._truth(node.test)
+        if v is None:
+            return node
+        return node.body if v else node.orelse
+
+    def visit_If(self, node):
+        self.generic_visit(node)
+        v = self._truth(node.test)
+        if v is None:
+            return node
+        keep_ = node.body if v else node.orelse
+        return keep_ or ast.copy_location(ast.Pass(), node)
+
+
 def inline_function(idx: PyIndex, fi: FuncInfo, depth: int = 2, keep=None) -> ast.FunctionDef:
     """Deep copy of fi.node with helper calls inlined (`depth` rounds); helpers whose name is in `keep` stay calls."""
     keep = set(keep or ())
@@ -391,6 +445,10 @@ def inline_function(idx: PyIndex, fi: FuncInfo, depth: int = 2, keep=None) -> as
     # apply the canonical forms again (helper bodies were already canonical, but idioms may now span the seam)
     from .normalise import Canon, _Subst
     fn = _Subst({}).visit(fn)           # getattr(x, 'const') -> x.const, applied lambdas
+    if fn.body and any(isinstance(x, (ast.If, ast.IfExp)) for x in ast.walk(fn)):
+        folded = _Fold().visit(fn)
+        if isinstance(folded, ast.FunctionDef) and folded.body:
+            fn = folded
     fn = Canon().visit(fn)
     ast.fix_missing_locations(fn)
     return fn
